@@ -58,6 +58,7 @@ def run(P, rep, tier):
     rep.attempt(r6_move_copy, P, rep, ctx)
     rep.attempt(r7_snapshot_before_mutation, P, rep, ctx)
     rep.attempt(r8_resolution_owner, P, rep, ctx)
+    rep.attempt(r9_handle_provenance, P, rep, ctx)
     rep.floor("C01.R1", 7)
     rep.floor("C01.R2", 6)
     rep.floor("C01.R3", 4)
@@ -535,6 +536,53 @@ RAW_READERS = {
     "IH5Group.__delitem__": "writer", "IH5Group._create_virtual": "writer", "IH5Group.create_dataset": "writer", "IH5Group.create_group": "writer",
     "IH5AttributeManager.__delitem__": "writer", "IH5AttributeManager.__setitem__": "writer",
 }
+
+
+NODE_CLASSES_ = ("IH5Group", "IH5Dataset", "IH5AttributeManager")
+# functions that create the node in the newest container and may therefore hand out a handle bound to the newest index
+CREATORS = {"IH5Group.create_group", "IH5Group.create_dataset", "IH5Group.require_group", "IH5Group.require_dataset"}
+# functions that receive the *resolved* bound of the child as a parameter
+RESOLVED_PARAM = {"IH5InnerNode._get_child": "cidx"}
+
+
+def r9_handle_provenance(P, rep, ctx):
+    """A node handle (record, path, lower bound) is only made with a bound that was resolved *for that path*: by the
+    resolution primitives (`_get_child` gets it from `_children`), for the root (no bound), for the same node (attribute
+    manager of self) or for a node just created in the newest container.  A handle made for another path with the bound of
+    this node skips `_children` of the ancestors: the view through it hides or resurrects entries of older containers."""
+    n = 0
+    for q, fi in sorted(P.functions.items()):
+        if fi.module.name != O or not isinstance(fi.node, (ast.FunctionDef, ast.AsyncFunctionDef)):
+            continue
+        f = None
+        for c in local_calls(fi.node):
+            if not (isinstance(c.func, ast.Name) and c.func.id in NODE_CLASSES_):
+                continue
+            n += 1
+            f = f or F(ctx, fi)
+            site = node_of(f.g, c)
+            args = [f.x_at(site, a) if site is not None else norm(a) for a in c.args] + [f"{k.arg}={norm(k.value)}" for k in c.keywords]
+            owner = q[len(O) + 1:].split(".<locals>.")[0]
+            path_ = args[1] if len(args) > 1 else None
+            idx_ = args[2] if len(args) > 2 else None
+            if path_ is None and idx_ is None:
+                how = "root handle (no bound)"
+                ok = True
+            elif path_ == "self._gpath" and idx_ == "self._cidx":
+                how = "same node (own path, own bound)"
+                ok = True
+            elif owner in RESOLVED_PARAM and idx_ == RESOLVED_PARAM[owner]:
+                how = "bound resolved by the caller through _children"
+                ok = True
+            elif owner in CREATORS and idx_ == "self._last_idx":
+                how = "node just created in the newest container"
+                ok = True
+            else:
+                how, ok = f"path {path_}, bound {idx_}", False
+            rep.check(ok, "C01.R9", fi.qual, f"handle {norm(c)[:60]}: {how}", fi.loc(c), construct=f"handle construction {norm(c)[:80]}",
+                      message=f"{fi.qual} builds a node handle for `{path_}` with the bound `{idx_}` that was not resolved for that path (not through _children / _get_child): the view through this handle ignores what older or newer containers say about the node, e.g. a parent obtained this way hides siblings from older containers")
+    if n < 6:
+        raise AnalysisError(f"C01.R9: only {n} node handle constructions found in overlay.py")
 
 
 def r8_resolution_owner(P, rep, ctx):
